@@ -309,9 +309,10 @@ def Node.init (c : Cfg) : Node :=
 structure Out where
   tx : List Tx := []
   made : List PktInfo := []
+  flushed : List (Nat × List Cached) := []   -- ghost: (identity of the completed pending handshake, packets released)
   deriving Repr, DecidableEq, Inhabited
 
-def Out.app (a b : Out) : Out := { tx := a.tx ++ b.tx, made := a.made ++ b.made }
+def Out.app (a b : Out) : Out := { tx := a.tx ++ b.tx, made := a.made ++ b.made, flushed := a.flushed ++ b.flushed }
 
 /-- one read of 4 bytes from the (scripted) crypto/rand stream -/
 def PSide.draw (c : Cfg) (n : PSide) : PSide × Nat :=
@@ -385,6 +386,28 @@ def stage0Tx (pkt0 : Option Handle) (rem : List UNode) : List Tx :=
   | some h, _ :: _ => [Tx.hs h rem]
   | _, _ => []
 
+/-- hostinfo.remotes, or the lighthouse cache entry for the address if it is still nil -/
+def remoteListOf (lh : LH) (hh : Pending) (a : Addr) : LH × Nat :=
+  match hh.remotes with
+  | some r => (lh, r)
+  | none => lh.queryCache [a]
+
+/-- the body of handleOutbound after the attempt counter was raised: build the first packet if needed, look
+up the remotes, transmit. Returns the side (pending table and wheel untouched), the updated pending record
+and what was emitted. -/
+def PSide.attempt (c : Cfg) (mainIdx : List (Nat × HostInfo)) (n : PSide) (hh : Pending) (a : Addr) (trig : Bool)
+    (now : Nat) : PSide × Pending × Out :=
+  let (n, hh, o, ok) := if hh.ready then (n, hh, ({} : Out), true) else n.buildStage0 c mainIdx hh now
+  if !ok then (n, hh, o) else
+  let (lh, rid) := remoteListOf n.lh hh a
+  let hh := { hh with remotes := some rid }
+  let n := { n with lh := lh }
+  let rem := (lh.get rid).out
+  let changed := rem != hh.lastRemotes
+  -- a lighthouse trigger only matters if it brought new remotes
+  if trig && !changed then (n, hh, o) else
+  (n, { hh with lastRemotes := rem }, o.app { tx := stage0Tx hh.pkt0 rem })
+
 /-- handleOutbound(vpnIp, lighthouseTriggered) / handleOutboundFor(vpnIp, armedFor, lighthouseTriggered) -/
 def PSide.handleOutbound (c : Cfg) (mainIdx : List (Nat × HostInfo)) (n : PSide) (a : Addr) (trig : Bool)
     (now : Nat) (armedFor : Option Nat := none) : PSide × Out :=
@@ -394,26 +417,11 @@ def PSide.handleOutbound (c : Cfg) (mainIdx : List (Nat × HostInfo)) (n : PSide
     -- handleOutboundFor: a timer entry armed for another (earlier) handshake is stale and ignored
     if armedFor.any (fun id => id != hh.id) then (n, {}) else
     if hh.counter ≥ c.retries then (n.deletePending hh, {}) else
-    let hh := { hh with counter := hh.counter + 1 }
-    let (n, hh, o, ok) := if hh.ready then (n, hh, ({} : Out), true) else n.buildStage0 c mainIdx hh now
-    if !ok then
-      -- (a lighthouse-triggered attempt is still in the wheel: no re-arm)
-      ((if trig then n.setPending hh
-        else { (n.setPending hh) with wheel := n.wheel.add (a, hh.id) ((c.interval : Int) * hh.counter) }), o)
-    else
-    let (lh, rid) := match hh.remotes with
-      | some r => (n.lh, r)
-      | none => n.lh.queryCache [a]
-    let hh := { hh with remotes := some rid }
-    let n := { n with lh := lh }
-    let rem := (lh.get rid).out
-    let changed := rem != hh.lastRemotes
-    if trig && !changed then (n.setPending hh, o) else
-    let hh := { hh with lastRemotes := rem }
-    let tx := stage0Tx hh.pkt0 rem
-    let n := n.setPending hh
-    let n := if trig then n else { n with wheel := n.wheel.add (a, hh.id) ((c.interval : Int) * hh.counter) }
-    (n, o.app { tx := tx })
+    let r := n.attempt c mainIdx { hh with counter := hh.counter + 1 } a trig now
+    let n' := r.1.setPending r.2.1
+    -- every path of a timer firing re-arms with delay tryInterval * counter; a lighthouse-triggered attempt is
+    -- still in the wheel and never re-arms
+    ((if trig then n' else { n' with wheel := n'.wheel.add (a, r.2.1.id) ((c.interval : Int) * r.2.1.counter) }), r.2.2)
 
 /-- NextOutboundHandshakeTimerTick(now) -/
 def PSide.tick (c : Cfg) (mainIdx : List (Nat × HostInfo)) (n : PSide) (now : Nat) : PSide × Out :=
@@ -520,9 +528,7 @@ def Node.continueHandshake (n : Node) (via : UNode) (idx : Nat) (res : S2Res) : 
     | .err failed => if failed then ({ n with p := n.p.deletePending hh }, {}) else (n, {})
     | .completed c =>
       -- SetRemote(via) -> LearnRemote on the pending hostinfo's remote list
-      let (lh, rid) := match hh.remotes with
-        | some r => (n.p.lh, r)
-        | none => n.p.lh.queryCache [hh.vpnAddr]
+      let (lh, rid) := remoteListOf n.p.lh hh hh.vpnAddr
       let p := { n.p with lh := lh.learn rid hh.vpnAddr via }
       if c.certAddrs.any (fun a => n.cfg.myAddrs.contains a) then ({ n with p := p.deletePending hh }, {}) else
       if !c.certAddrs.contains hh.vpnAddr then
@@ -536,7 +542,7 @@ def Node.continueHandshake (n : Node) (via : UNode) (idx : Nat) (res : S2Res) : 
         let p := p.deletePending hh
         let flushed := (hh.store.filter n.cfg.allowed).map (fun q => Tx.msg q.len via)
         ({ n with main := n.main.addHostInfo (initiatorHostInfo hh via c), p := { p with lh := p.lh.refresh rid } },
-         { tx := flushed })
+         { tx := flushed, flushed := [(hh.id, hh.store.filter n.cfg.allowed)] })
 
 /-- consumeInsidePacket for one UDP packet to overlay address `a` -/
 def Node.sendInside (n : Node) (a : Addr) (q : Cached) : Node × Out :=
